@@ -145,6 +145,8 @@ def decode_index(ix):
     if isinstance(ix, list):
         if ix and ix[0] == 'sl':
             return slice(ix[1], ix[2], ix[3])
+        if ix and ix[0] == 'el':
+            return Ellipsis
         return tuple(decode_index(i) for i in ix)
     return ix
 
@@ -377,6 +379,26 @@ class World(object):
                 obj.callbacks.remove(cb)
             except (ValueError, AttributeError):
                 pass
+            return
+        if 'selfwrite' in act:
+            # fault F8: the callback writes to the very object it is being notified about, while
+            # that object's own write is still in flight (a "corrective" handler)
+            if st is None or k is None or k != st.dest or st.store is None or st.store.target != 'dest' \
+                    or st.kind not in ('inplace', 'indexed') or st.extra.get('selfwrites'):
+                self.bump('fault_F8_dropped')
+                return
+            self.bump('fault_F8_fired')
+            self.bump('fault_F8_fired_' + site)
+            rec = {'site': site, 'val': act['selfwrite'], 'entry_val': np.array(obj.val, copy=True),
+                   'fmt': (obj.signed, obj.n_word, obj.n_frac)}
+            st.extra['selfwrites'] = [rec]
+            c = V.carrier(act['selfwrite'])
+            if act.get('via') == 'set_val':
+                obj.set_val(c)
+            else:
+                obj(c)
+            rec['inner_val'] = np.array(obj.val, copy=True)
+            rec['done'] = True
             return
         if act.get('raise'):
             self.bump('fault_F3_fired')
@@ -1045,7 +1067,7 @@ class World(object):
     def op_getitem(self, st):
         op = st.op
         self.room()
-        a = self.ref(op['slot'], lambda o: np.asarray(o.val).ndim > 0)
+        a = self.ref(op['slot'], lambda o: isinstance(o.val, np.ndarray))
         index = decode_index(op['index'])
         st.kind = 'derive'
         st.pure = True
@@ -1258,7 +1280,7 @@ class World(object):
 
     def op_setitem(self, st):
         op = st.op
-        d = self.ref(op['slot'], lambda o: np.asarray(o.val).ndim > 0)
+        d = self.ref(op['slot'], lambda o: isinstance(o.val, np.ndarray))
         index = decode_index(op['index'])
         st.kind = 'indexed'
         self.plan_indexed(st, d, index)
@@ -1278,7 +1300,10 @@ class World(object):
     def op_setitem_chain(self, st):
         """The documented x[i][j] = v: must write through to x."""
         op = st.op
-        d = self.ref(op['slot'], lambda o: np.asarray(o.val).ndim >= 2)
+        has_el = any(isinstance(x, list) and x and x[0] == 'el' for x in
+                     (op['i'] if isinstance(op['i'], list) else [op['i']])) or op['i'] == ['el']
+        d = self.ref(op['slot'], (lambda o: isinstance(o.val, np.ndarray)) if has_el
+                     else (lambda o: np.asarray(o.val).ndim >= 2))
         i, j = decode_index(op['i']), decode_index(op['j'])
         s = self.slots[d]
         st.kind = 'indexed'
@@ -1309,7 +1334,13 @@ class World(object):
         st.extra['val'] = op['val']
         yield
         self.bump('chained_setitem')
-        self.obj(d)[i][j] = V.carrier(op['val'])
+        # x[i][j] = v, spelled as the two calls Python makes, so that the transient view stays
+        # observable: what it holds afterwards must be what the root holds at the same place
+        t = self.obj(d)[i]
+        st.extra['chain_transient'] = t
+        t[j] = V.carrier(op['val'])
+        if has_el:
+            self.bump('chained_setitem_through_0d_view')
 
     def op_equal(self, st):
         op = st.op
@@ -1645,6 +1676,9 @@ class World(object):
         if op.get('unregister'):
             cb.armed[op['site']] = {'unregister': True}
             self.bump('fault_F7_unregister_armed')
+        elif op.get('selfwrite') is not None:
+            cb.armed[op['site']] = {'selfwrite': op['selfwrite'], 'via': op.get('via', 'call')}
+            self.bump('fault_F8_armed')
         elif op.get('raise'):
             cb.armed[op['site']] = {'raise': True}
             self.bump('fault_F3_armed')
